@@ -327,6 +327,17 @@ func (d *Driver) Enabled(e *mc.Env, s *mc.State) []mc.Op {
 			ops = append(ops, mc.Op{Name: fmt.Sprintf("harvest(%s)", f), Data: opData{kind: "harvest", farmer: f}})
 		}
 	}
+	if d.V.OtherPools > 0 {
+		// the creator of another pool (same reward denominations, nobody staked there) destroys it: what the pool
+		// under test has released but not yet paid out rests on an account all pools share
+		if r, err := e.Farm.FarmPool(s.Ctx, &farmtypes.QueryFarmPoolRequest{Id: "farm-2"}); err == nil && r.Pool != nil && !r.Pool.Expired && r.Pool.EndHeight > s.Ctx.BlockHeight() {
+			ops = append(ops, mc.Op{Name: "destroy-other-pool(farm-2)", Data: opData{kind: "destroy-other"}})
+		}
+	}
+	if len(d.V.Total) > 1 && e.Farm.GetParams(s.Ctx).MaxRewardCategories > 1 {
+		// governance lowers the number of reward denominations a *new* pool may have below what this pool has
+		ops = append(ops, mc.Op{Name: "gov:max-reward-categories(1)", Data: opData{kind: "gov-categories"}})
+	}
 	if d.V.Creator {
 		first := d.V.Total[0].Denom
 		ops = append(ops, mc.Op{Name: "block×3", Data: opData{kind: "block", n: 3}})
@@ -515,6 +526,14 @@ func (d *Driver) apply(e *mc.Env, s *mc.State, op mc.Op) []mc.Finding {
 		m.addPaid(f, reward)
 		m.inter[f]++
 		return fs
+	case "destroy-other":
+		s.Deliver(e, op.Name, &farmtypes.MsgDestroyPool{PoolId: "farm-2", Creator: mc.Addr("K2").String()})
+		return nil
+	case "gov-categories":
+		p := e.Farm.GetParams(s.Ctx)
+		p.MaxRewardCategories = 1
+		s.Deliver(e, op.Name, &farmtypes.MsgUpdateParams{Authority: mc.Authority().String(), Params: p})
+		return nil
 	case "topup", "rate", "both", "destroy":
 		pool := d.pool(e, s)
 		before := e.AllBal(s.Ctx, kaddr)
@@ -624,6 +643,34 @@ func (d *Driver) classifyFailure(e *mc.Env, s *mc.State, f string, pending sdk.C
 	}
 	if len(d.rpsAboveExact(e, s)) > 0 {
 		return "reward-collector-short/per-share-accumulator-above-exact"
+	}
+	// rounding only ever makes the farmers' claims exceed what was set aside for them; it never takes coins away:
+	// the pool's undistributed budget plus the collector's holdings must still be everything funded and not yet paid
+	farmAcc := mc.ModuleAddr(farmtypes.ModuleName)
+	others := sdk.NewCoins()
+	if r, err := e.Farm.FarmPools(s.Ctx, &farmtypes.QueryFarmPoolsRequest{}); err == nil {
+		for _, p := range r.Pools {
+			if p.Id != poolID {
+				others = others.Add(p.RemainingReward...)
+			}
+		}
+	}
+	for _, dn := range d.rewardDenoms() {
+		paidSum := new(big.Int)
+		for _, g := range d.V.Farmers {
+			if m.paid[g] != nil && m.paid[g][dn] != nil {
+				paidSum.Add(paidSum, m.paid[g][dn])
+			}
+		}
+		want := new(big.Int).Sub(m.funded[dn], paidSum)
+		if m.refunded {
+			want = new(big.Int).Sub(m.released[dn], paidSum)
+		}
+		have := new(big.Int).Add(e.Bal(s.Ctx, collector, dn).BigInt(), e.Bal(s.Ctx, farmAcc, dn).BigInt())
+		have.Sub(have, others.AmountOf(dn).BigInt())
+		if have.Cmp(want) < 0 {
+			return "reward-collector-short/funds-set-aside-for-the-pool-are-gone"
+		}
 	}
 	return "reward-collector-short/all-farmers-within-rounding"
 }
@@ -745,6 +792,12 @@ func (d *Driver) check(e *mc.Env, s *mc.State) []mc.Finding {
 				after := e.AllBal(fk.Ctx, fa)
 				got, neg := after.SafeSub(before...)
 				want := sdk.NewCoins(mc.CI(lpt, locked)).Add(pending...)
+				// (the throw-away branch keeps its own books: what was paid here counts for the classification of a
+				// later failure on the same branch)
+				if fm, ok := fk.Model.(*model); ok && !neg {
+					reward, _ := got.SafeSub(mc.CI(lpt, locked))
+					fm.addPaid(f, reward)
+				}
 				if neg || !got.Equal(want) {
 					fs = append(fs, mc.F("C05/balance-delta/full-unstake", "%s received %s, expected stake+accrued %s", f, got, want))
 				}
